@@ -145,14 +145,18 @@ def search(ctx):
 
 SPEC = {
     "id": "C01",
-    "gens": ["HlslGenTables", "HlslIntrinsicTables", "FmtTables", "ParseTables"],
-    "lean_modules": ["RsslVerif.Thm.C01", "RsslVerif.Thm.C09"],
+    "gens": ["HlslGenTables", "HlslIntrinsicTables", "HlslVecTables", "FmtTables", "ParseTables"],
+    "lean_modules": ["RsslVerif.Thm.C01", "RsslVerif.Thm.C01Vec", "RsslVerif.Thm.C09"],
     "theorems": [T + n for n in [
         "op_table_is_identity", "op_table_injective", "intrinsic_table_is_identity", "exporter_shape_as_modelled",
         "literal_value_preserved", "literal_total", "literal_int32_min",
         "gen_sem_expr", "gen_sem_expr_plain", "gen_sem_stmt", "gen_sem_stmts", "scope_block_push_is_append",
         "gen_sem_func", "gen_sem_program",
-        "cast_to_literal_dropped_changes_meaning"]] + [
+        "cast_to_literal_dropped_changes_meaning",
+        # vector layer (Thm/C01Vec.lean): shape-changing casts, swizzles, numeric constructors, component-wise operators
+        "exporter_vec_shape_as_modelled", "swizzle_letters_are_identity", "vector_type_names_roundtrip",
+        "gen_sem_vec_expr", "gen_sem_vec_expr_plain", "scalar_cast_then_widen_differs",
+        "dropping_inner_shape_cast_changes_meaning", "literal_vector_cast_panics"]] + [
         # the text leg (printing the exported tree and reading it back) is property C09's; its table obligations are
         # C01 obligations too: a change of the printer's precedence / associativity tables breaks them
         "RsslVerif.Thm.C09." + n for n in ["tables_agree", "assoc_agrees", "roundtrip_expr_partial", "paren_rule_matches_grammar"]],
